@@ -42,6 +42,12 @@ class Disk:
     def delete(self, name):
         self.data.pop(name, None)
 
+    def set_all_mtimes(self, t):
+        """Every stored value gets the modified time t (files extracted from an archive that zeroes timestamps,
+        `touch -d`): contents unchanged."""
+        for name in list(self.data):
+            self.data[name] = (self.data[name][0], t)
+
     def value(self, name):
         return self.data[name][0]
 
@@ -71,6 +77,19 @@ def render_instant(t, how):
         return dt.datetime.fromtimestamp(t, dt.timezone.utc).replace(tzinfo=None)
     if how == "naive-local":
         return dt.datetime.fromtimestamp(t)  # local zone, fold preserved
+    if how == "naive-gap":
+        # a naive local time that does not exist on the wall clock (inside a spring-forward gap) but - by the rules
+        # every datetime operation follows (PEP 495: fold=0 reads it with the offset before the transition, fold=1
+        # with the offset after) - denotes exactly the instant t; where t has no such spelling: the ordinary one
+        d = dt.datetime.fromtimestamp(t)
+        utc = dt.datetime.fromtimestamp(t, dt.timezone.utc).replace(tzinfo=None)
+        for probe in (-7200, 7200, -3600, 3600, -1800, 1800):
+            off = dt.datetime.fromtimestamp(t + probe).astimezone().utcoffset()
+            for fold in (0, 1):
+                w = (utc + off).replace(fold=fold)
+                if w.replace(fold=0) != d.replace(fold=0) and w.timestamp() == t:
+                    return w
+        return d
     if how == "aware-utc":
         return dt.datetime.fromtimestamp(t, dt.timezone.utc)
     if how == "aware-local":
@@ -143,7 +162,7 @@ class FileDisk(Disk):
     uberjob's own PickleFileStore (through the syscall fault layer), with
     modified times on the virtual clock.  Everything else stays in memory."""
 
-    def __init__(self, scratch, file_names, touch=(), siblings=False, symlinks=()):
+    def __init__(self, scratch, file_names, touch=(), siblings=False, symlinks=(), loops=()):
         super().__init__()
         self.scratch = scratch
         self.file_names = set(file_names)
@@ -154,7 +173,8 @@ class FileDisk(Disk):
 
         for name in sorted(self.symlinks & self.file_names):
             p = str(self.path(name))
-            fs.REAL["symlink"](os.path.join(scratch, "elsewhere-" + os.path.basename(p)), p)
+            # dangling, or pointing at itself (stat fails with ELOOP, not ENOENT): either way nothing is stored there
+            fs.REAL["symlink"](p if name in loops else os.path.join(scratch, "elsewhere-" + os.path.basename(p)), p)
 
     def path(self, name):
         import os
@@ -201,6 +221,15 @@ class FileDisk(Disk):
             return super().value(name)
         return self._store(name).read()
 
+    def set_all_mtimes(self, t):
+        import os
+
+        super().set_all_mtimes(t)
+        for name in sorted(self.file_names):
+            p = str(self.path(name))
+            if os.path.exists(p):
+                os.utime(p, ns=(int(round(t * 1e9)), int(round(t * 1e9))))
+
     def mtime(self, name):
         import os
 
@@ -208,7 +237,7 @@ class FileDisk(Disk):
             return super().mtime(name)
         try:
             return os.stat(self.path(name)).st_mtime_ns / 1e9
-        except FileNotFoundError:
+        except OSError:
             return None
 
     def mtimes(self):
